@@ -294,6 +294,28 @@ func c02Exec(c c02Case, x *pbt.Ctx) error {
 	} else if (res[0].GetError() == nil) != (verr == nil) {
 		return fmt.Errorf("%s lock, %d-of-%d, signers %v, variant %s (primed %v): ValidateTx reports %v, the block path ValidateTxs reports %v for the same transaction", c.Lock, c.M, c.N, c.Subset, c.Variant, c.Primed, verr, res[0].GetError())
 	}
+	if c.Primed {
+		// a block that holds the properly signed transaction and the variant side by side, several times
+		// (workers take them in turn): every position must get the verdict of its own transaction
+		good := build(4000000000, []byte{0x51}, 0, 777)
+		good.SetInputArguments(0, goodArgs)
+		var batch []*bc.Tx
+		for k := 0; k < 12; k++ {
+			batch = append(batch, good.Tx, final.Tx)
+		}
+		for k, r := range validation.ValidateTxs(batch, block, conv) {
+			if r == nil {
+				return fmt.Errorf("ValidateTxs: no result at position %d", k)
+			}
+			want := error(nil)
+			if k%2 == 1 {
+				want = verr
+			}
+			if (r.GetError() == nil) != (want == nil) {
+				return fmt.Errorf("%s lock, %d-of-%d, signers %v, variant %s: in a batch that alternates the properly signed transaction and the variant, position %d gets verdict %v; the transaction at that position alone gets %v", c.Lock, c.M, c.N, c.Subset, c.Variant, k, r.GetError(), want)
+			}
+		}
+	}
 	accepted := verr == nil
 	if accepted {
 		x.Class("accepted")
@@ -311,6 +333,6 @@ func c02Exec(c c02Case, x *pbt.Ctx) error {
 }
 
 func TestC02(t *testing.T) {
-	pbt.Run(t, "C02", "keys from generated seeds, m-of-n up to 6; outputs locked by P2WPKH, P2WSH(multisig) and the raw multisig program, spent by a transaction with 0-2 other inputs/outputs; witness variants: correct (any m-subset in key order), one signature bit flipped / truncated / over another message / by a foreign key, key or redeem script altered in one bit, duplicated, reversed, one signature missing, an extra argument, no witness, and a correct witness kept while a committed field (output amount, output program, time range, another input) changes; oracle: accept => the witness holds m valid signatures (crypto/ed25519) by distinct committed keys over H(inputID||txID) and the key/script hashes to the committed value; correct in-order witness => accept; in half of the cases the properly signed transaction was validated before (alone and in a batch) and the variant is then judged on both paths, ValidateTx and the block path ValidateTxs, which must agree; non-trivial = any non-correct variant or n >= 3",
+	pbt.Run(t, "C02", "keys from generated seeds, m-of-n up to 6; outputs locked by P2WPKH, P2WSH(multisig) and the raw multisig program, spent by a transaction with 0-2 other inputs/outputs; witness variants: correct (any m-subset in key order), one signature bit flipped / truncated / over another message / by a foreign key, key or redeem script altered in one bit, duplicated, reversed, one signature missing, an extra argument, no witness, and a correct witness kept while a committed field (output amount, output program, time range, another input) changes; oracle: accept => the witness holds m valid signatures (crypto/ed25519) by distinct committed keys over H(inputID||txID) and the key/script hashes to the committed value; correct in-order witness => accept; in half of the cases the properly signed transaction was validated before (alone and in a batch) and the variant is then judged on both paths, ValidateTx and the block path ValidateTxs, which must agree, and a batch alternating the properly signed transaction and the variant twelve times must give every position its own verdict; non-trivial = any non-correct variant or n >= 3",
 		pbt.Options{Checks: pbt.Per(10000, 600000), MinClass: map[string]int{"accepted": 300, "refused": 1000}}, c02Gen, c02Exec)
 }
